@@ -5,7 +5,8 @@ NS = "Hw.Props.C16."
 THEOREMS = [NS + t for t in """C16_build_ret C16_build_too_complex_iff C16_build_tc_entry_iff C16_build_empty_iff_equal
 C16_build_no_null_string C16_apply_ok C16_apply_fail_index C16_apply_cases C16_entry_inverse C16_reverse_order_undo
 C16_apply_rollback C16_apply_rollback_state C16_reverse_apply_reversed_list C16_reverse_apply_partial
-C16_apply_build_infos_partial C16_F13c_witness C16_rollback_needs_distinct_names_witness
+C16_apply_build_infos_partial C16_entries_commute C16_reverse_apply C16_build_distinct_slots C16_apply_build_core
+C16_apply_build C16_reverse_apply_build C16_reverse_apply_to_B C16_apply_build_needs_keys_nodup_witness C16_F13c_witness C16_rollback_needs_distinct_names_witness
 C16_reverse_apply_chain_witness""".split()]
 CHECK_MODULES = ["Hw.Props.C16"]
 TRUSTED = ["the observation function of harness/h_diff.c (DFS dump of names, infos, local/total memory, keys, and the opaque "
@@ -13,6 +14,12 @@ TRUSTED = ["the observation function of harness/h_diff.c (DFS dump of names, inf
            "XML export/load of diffs is not modelled in Lean: the round trip (entries and refname) is checked on the C side only"]
 ASSUMPTIONS = ["topologies are well-formed (C01): (depth, logical_index) identifies an object (KeysInj) and the parent chain is the "
                "ancestor list; malloc/strdup never fail",
+               "whole-tree apply-after-build theorems: KeysNodup (no two objects of the tree share a key), DepthsBelowNbl (no object "
+               "has depth nb_levels); for the total_memory part of the observation also SameSkeleton (A and B agree per object on "
+               "key, ancestor chain, NUMA-ness: functions of shape and type in hwloc, data in the model) and MemConsistent "
+               "(total_memory = uint64 sum of the NUMA local memories at or below the object) in A and B",
+               "REVERSE application in list order: DistinctSlots (entries address pairwise distinct attributes; proved of every "
+               "built diff, false for chains like X:a->b, X:b->c)",
                "InfoNamesDistinct (no infos array holds two pairs with the same name) for the inverse/rollback theorems and the "
                "apply-after-build oracles; inputs outside it are run but classified F13c",
                "hand-built diff lists handed to apply contain no NULL strings (strcmp/strdup(NULL) is undefined); build is proved "
